@@ -22,6 +22,9 @@ Streams
      enum.values) between two validations + a cache reset (replace request / fresh Schema over the same objects): the
      second verdict is that of the CURRENT description, undo -> valid again. Interface fields there take enum /
      input-object / custom-scalar typed arguments. Verdicts of kept schema objects are repeated at the end (ctx.later).
+  J  interface vs implementing object: ALL pairs of type expressions with <= 3 wrappers over the same and over different
+     named types, as argument types (must be EQUAL) and as field types (must be covariant); and in F: `==` / `!=` on all
+     such pairs against structural equality, `is_subtype` on all pairs against the spec relation (exhaustive, no sampling)
   I  2-4 elements appended to ONE member list (same field / type / union / enum / directive) from a pool of two names x
      {well-formed, ill-formed} x {right, wrong position}: several violations on the same element and name, in every order
 On EVERY schema of every stream: (i) the report contains every violation instance of the dump (`spec_rules`, the Python
@@ -1494,18 +1497,33 @@ def stream_subtype_and_names(ctx, batch):
     rng = ctx.rng
     base = add_cluster(gs.gen_schema(rng, size=0, with_descriptions=False, with_directives=False))
     s = build_code(base)
-    names = ["IfX", "ObX", "UnX", "Int", "Query"] + [t["name"] for t in base["types"] if t["kind"] in ("enum", "input")][:2]
-    types = all_small_types(names, ctx.n(2, 3))
-    if ctx.tier == "quick":
-        types = [t for t in types if rng.random() < 0.6 or t[0] == "named"]
+    names = ["IfX", "ObX", "UnX", "Int"] + [t["name"] for t in base["types"] if t["kind"] == "enum"][:1]
+    if ctx.tier != "quick":
+        names += ["Query"] + [t["name"] for t in base["types"] if t["kind"] == "input"][:1]
+    # EXHAUSTIVE: every pair of type expressions with <= 3 wrappers over these names (no sampling: a defect may sit
+    # on one pair of shapes only, e.g. [T!] vs [[T]])
+    types = all_small_types(names, 3)
+    ctx.extra["exhaustive_type_pairs"] = len(types) ** 2
 
     def live(t):
         if t[0] == "named":
             return s.types[t[1]]
         return (ListType if t[0] == "list" else NonNullType)(live(t[1]))
     pairs = [(a, b) for a in types for b in types]
-    if len(pairs) > ctx.n(4000, 40000):
-        pairs = rng.sample(pairs, ctx.n(4000, 40000))
+    # `==` / `!=` on type expressions (helper of is_subtype and of the interface-argument rule) is structural equality
+    lives = {t: live(t) for t in types}
+    lives2 = {t: live(t) for t in types}       # distinct wrapper objects of the same shape
+    for a, b in pairs:
+        ctx.count()
+        try:
+            eq, ne = (lives[a] == lives2[b]), (lives[a] != lives2[b])
+        except Exception as e:  # noqa
+            eq, ne = "exc:" + type(e).__name__, None
+        if eq is not (a == b) or (ne is not None and ne is not (a != b)):
+            ctx.fail("type-equality-not-structural:%s" % shape(a, b), "`==` on type expressions differs from structural equality "
+                     "(the interface-argument rule and is_subtype compare types with it)",
+                     {"how": "type-eq", "a": gs.ty_str(a), "b": gs.ty_str(b), "eq": eq, "ne": ne, "desc": base})
+            break
     real = []
     for a, b in pairs:
         ctx.count()
@@ -2036,6 +2054,72 @@ def stream_compound(ctx, batch):
         check_schema(ctx, batch, s, None, "code", {"stream": "compound", "where": where}, desc=d)
     ctx.extra["compound_cases"] = done
 
+
+# ---- J: interface vs object types, ALL pairs of wrapper shapes --------------------------------------------
+
+def stream_wrapper_pairs(ctx, batch):
+    """Every pair of type expressions with <= 3 wrappers over the same and over different named types, as
+    (interface argument type, object argument type) - must be EQUAL - and as (interface field type, object field
+    type) - must be covariant. Many pairs per schema (one interface field each); expectation = the violation
+    instances of the dump (`spec_rules`: structural equality / `spec_subtype`), the shrinker isolates the pair."""
+    rng = ctx.rng
+    arg_types = all_small_types(["Int", "String"], 3)
+    fld_types = all_small_types(["IfW", "ObW", "Int"], 3)
+    arg_pairs = [(a, b) for a in arg_types for b in arg_types]
+    fld_pairs = [(a, b) for a in fld_types for b in fld_types]
+    per = 48
+    done = 0
+    for kind, pairs in (("arg", arg_pairs), ("field", fld_pairs)):
+        for off in range(0, len(pairs), per):
+            if ctx.time_left() < 12:
+                return
+            chunk = pairs[off:off + per]
+            ifields, ofields = [], []
+            for j, (ta, tb) in enumerate(chunk):
+                if kind == "arg":
+                    ifields.append(_f("w%d" % j, ("named", "Int"), [_a("filter", ta)]))
+                    ofields.append(_f("w%d" % j, ("named", "Int"), [_a("filter", tb)]))
+                else:
+                    ifields.append(_f("w%d" % j, ta))
+                    ofields.append(_f("w%d" % j, tb))
+            d = {"directives": [], "query": "Query", "mutation": None, "subscription": None, "types": [
+                {"kind": "interface", "name": "IfW", "desc": None, "fields": ifields},
+                {"kind": "object", "name": "ObW", "desc": None, "interfaces": ["IfW"], "fields": ofields},
+                {"kind": "object", "name": "Query", "desc": None, "interfaces": [], "fields": [_f("o", ("named", "ObW")), _f("i", ("named", "IfW"))]}]}
+            s = try_build(ctx, build_code, d)
+            if s is None:
+                continue
+            done += len(chunk)
+            ctx.stat("wrapper-pairs:%s" % kind, len(chunk))
+            # labelled expectation of this stream (independent of spec_rules): equal / covariant per pair
+            if kind == "arg":
+                want = Counter({"ifaceArgType": sum(1 for ta, tb in chunk if ta != tb)})
+            else:
+                want = Counter({"ifaceFieldType": sum(1 for ta, tb in chunk if not spec_subtype(d, tb, ta))})
+            v, e = check_schema(ctx, batch, s, None, "code", {"stream": "wrapper-pairs", "kind": kind, "offset": off}, desc=d)
+            got = Counter(r for r, _ in e)
+            if +want != got:
+                # find the pair(s)
+                bad = []
+                for (ta, tb) in chunk:
+                    d1 = copy.deepcopy(d)
+                    d1["types"][0]["fields"] = [ifields[chunk.index((ta, tb))]]
+                    d1["types"][1]["fields"] = [ofields[chunk.index((ta, tb))]]
+                    s1 = quiet_build(build_code, d1)
+                    if s1 is None:
+                        continue
+                    v1, e1 = real_validate(s1)
+                    exp1 = (ta != tb) if kind == "arg" else (not spec_subtype(d1, tb, ta))
+                    if (v1 == "invalid") != exp1:
+                        bad.append((ta, tb, v1, d1))
+                for ta, tb, v1, d1 in bad[:3]:
+                    ctx.fail("interface-%s-type:%s:%s" % (kind, "accepted" if v1 == "valid" else "rejected", shape(tb, ta)),
+                             "object %s type %s against interface %s type %s: %s" % (kind, gs.ty_str(tb), kind, gs.ty_str(ta),
+                                                                                   "accepted although not %s" % ("equal" if kind == "arg" else "covariant") if v1 == "valid" else "rejected although valid"),
+                             {"how": "code", "labels": None, "info": {"stream": "wrapper-pairs"}, "desc": d1,
+                              "interface_type": gs.ty_str(ta), "object_type": gs.ty_str(tb)})
+    ctx.extra["wrapper_pair_cases"] = done
+
 # ---- E: cache histories -------------------------------------------------------------------------
 
 def gen_history(rng, desc, length):
@@ -2315,6 +2399,7 @@ def run(ctx):
     batch = Batch(ctx)
     corpus_cases(ctx, batch)
     stream_subtype_and_names(ctx, batch)
+    stream_wrapper_pairs(ctx, batch)
     stream_shared_resolvers(ctx, batch)
     stream_compound(ctx, batch)
     stream_derived(ctx, batch)
@@ -2351,6 +2436,11 @@ def replay(ctx, data):
         from py_gql.schema.validation import _is_valid_name
         return bool(_is_valid_name("".join(chr(c) for c in inp["name"]))) != inp["real"]
     desc = _to_tuples(inp.get("desc")) if inp.get("desc") is not None else None
+    if how == "type-eq":
+        from py_gql.lang import parse_type
+        s = build_code(desc)
+        ta, tb = s.get_type_from_literal(parse_type(inp["a"])), s.get_type_from_literal(parse_type(inp["b"]))
+        return (ta == tb) == (inp["a"] == inp["b"]) and (ta != tb) == (inp["a"] != inp["b"])
     if how == "subtype":
         from py_gql.lang import parse_type
         from py_gql.lang import ast as _ast
